@@ -4,10 +4,12 @@
    a `fan` of all single calls (every offered round x every offered timestamp, valid or not) with the
    result and next state the model demands; and the `queries`: what get_current_time and
    compare_current_time must answer in that state for instants around the clock's minute and second
-   (minute +- {0, 1 s, 59 s, 60 s}, second +- 1) for all five operators and both precisions.
+   (minute +- {0, 1 s, 59 s, 60 s}, second +- 1) for all five operators and both precisions, and `farq`: the same for
+   the instants at the edges of the i64 range and of the code's conversions (FarInstants), decided on unbounded integers.
    Sim: seeded random sequences of K calls.                                                    *)
 EXTENDS Consensus, Json
-CONSTANTS K
+CONSTANTS K,
+          BaseMin    \* whole minutes the harness adds to every time of this run (the model's times are relative to it)
 VARIABLE hist
 
 Rec(r, t, o) == [r |-> r, t |-> t, res |-> o.res, change |-> o.change, st |-> o.st]
@@ -23,12 +25,32 @@ SetToSeqAsc(T) == LET RECURSIVE Asc(_)
                   IN Asc(T)
 Instants(s) == {s.minute * 60 + d : d \in {-60, -59, -1, 0, 1, 59, 60}} \cup {SecondOf(s.ms) + d : d \in {-1, 0, 1}}
 Queries(s) == {[i |-> i, prec |-> p, op |-> op, exp |-> Compare(s, i, p, op)] : i \in Instants(s), p \in Precisions, op \in Ops}
+\* Instants at the edges of the i64 range and of the conversions compare_current_time performs (seconds * 1000 must
+\* fit i64: |i| <= 9223372036854775; the minute must fit i32: -2^31 * 60 - 59 <= i <= 2^31 * 60 - 1), ABSOLUTE values;
+\* always asked, in every state, x five operators x both precisions; expected answer = CompareBig on the
+\* mathematical values with the absolute clock
+I64Max == B!Sub(B!Pow2(63), B!One)
+I64Min == B!Neg(B!Pow2(63))
+M31    == B!Mul(B!Pow2(31), B!FromInt(60))
+MulMax == B!DivSmall(I64Max, 1000)
+Off(x, d) == B!Add(x, B!FromInt(d))
+FarInstants ==
+  {I64Min, Off(I64Min, 1), Off(B!Neg(MulMax), -1), B!Neg(MulMax), Off(B!Neg(M31), -61), Off(B!Neg(M31), -60), Off(B!Neg(M31), -59),
+   Off(B!Neg(M31), -1), B!Neg(M31), B!Zero, Off(M31, -1), M31, Off(M31, 1), Off(M31, 60), MulMax, Off(MulMax, 1), Off(I64Max, -1), I64Max}
+AbsClock(s, prec) == B!Add(B!Mul(B!FromInt(BaseMin), B!FromInt(60)), B!FromInt(GetTime(s, prec)))
+FarQueries(s) == {[big |-> i, prec |-> p, op |-> op, exp |-> CompareBig(AbsClock(s, p), i, p, op)] : i \in FarInstants, p \in Precisions, op \in Ops}
+\* S: on the instants near the clock the two formulations of the comparison coincide, and every far instant other than 0
+\* compares like +- infinity (the clock of the bounded model is far inside the range)
+BigAgrees ==
+  /\ \A i \in Instants(S), p \in Precisions, op \in Ops :
+        CompareBig(AbsClock(S, p), B!Add(B!Mul(B!FromInt(BaseMin), B!FromInt(60)), B!FromInt(i)), p, op) = Compare(S, i, p, op)
+  /\ \A q \in FarQueries(S) : q.big # B!Zero => q.exp = Cmp(0, q.op, q.big.s)
 InitRec == [epoch |-> 0, round |-> 0, ms |-> InitMs, minute |-> MinuteOf(InitMs), effStart |-> InitMs]
 Emit == Bound => PrintT(<<"B", ToJson(
   [init |-> InitRec, path |-> hist,
    fan |-> {Rec(r, t, Step(S, r, t)) : r \in Rounds, t \in TVals},
    gets |-> [Minute |-> GetTime(S, "Minute"), Second |-> GetTime(S, "Second")],
-   queries |-> Queries(S)])>>)
+   queries |-> Queries(S), farq |-> FarQueries(S)])>>)
 
 \* Sim
 SimNext == /\ Len(hist) < K
@@ -41,5 +63,5 @@ SimNext == /\ Len(hist) < K
 SimSpec == GInit /\ [][SimNext]_<<vars, hist>>
 EmitSim == Len(hist) = K => PrintT(<<"B", ToJson(
   [init |-> InitRec, path |-> hist, fan |-> {},
-   gets |-> [Minute |-> GetTime(S, "Minute"), Second |-> GetTime(S, "Second")], queries |-> Queries(S)])>>)
+   gets |-> [Minute |-> GetTime(S, "Minute"), Second |-> GetTime(S, "Second")], queries |-> Queries(S), farq |-> FarQueries(S)])>>)
 =============================================================================
